@@ -33,7 +33,6 @@ def showErr : Err → String
   | .dat => "err dat"
   | .assertion => "raise AssertionError"
   | .typeError => "raise TypeError"
-  | .overflowError => "raise OverflowError"
 
 def showFloat : PyFloat → String
   | .nan => "fnan"
